@@ -27,4 +27,7 @@ pub(crate) enum ConnectionEvent {
 
     #[cfg(feature = "statistics")]
     TakeStatistics(oneshot::Sender<BrokerStatistics>),
+
+    #[cfg(feature = "verif-hooks")]
+    VerifSnapshot(futures_channel::oneshot::Sender<crate::VerifSnapshot>),
 }
